@@ -15,6 +15,11 @@ pub fn scenario(tier: &str) -> IncScn {
             roots.push(IncRoot { label: format!("{:?}/flow+epoch", k), lp_native: true, fee_kind: k, prefix: 2, standing_allowance: false });
         }
     }
+    // amounts of 18-decimals assets: every flow, expansion and position exceeds 2^64 base units
+    roots.push(IncRoot { label: "NativeDiff/flow+epoch @1e18-units".into(), lp_native: true, fee_kind: FeeKind::NativeDiff, prefix: 2, standing_allowance: false });
+    if tier != "quick" {
+        roots.push(IncRoot { label: "Cw20Same/flow+epoch @1e18-units".into(), lp_native: true, fee_kind: FeeKind::Cw20Same, prefix: 2, standing_allowance: false });
+    }
     IncScn { property: "C12".into(), roots, users: default_users(), reduced: tier == "quick" }
 }
 
